@@ -102,13 +102,16 @@ type oCase struct {
 	inputs   []int64
 	owned    map[int64]bool // tables the running compaction allocated (first seen pending after its start)
 
-	cl    *oThr
-	clAt  string
-	clDel int64
+	cl       [2]*oThr
+	clAt     [2]string
+	clDel    [2]int64
+	swCalled bool // the job's compactFlusher.StreamWriter() was called (it is cached afterwards)
+	count    int  // keys in the open output table
 
 	held      version.Snapshot
 	heldFiles map[int64]bool
 	broken    bool
+	lossy     bool // the harness merger itself dropped a key (kind 'e')
 }
 
 var oCur *oCase
@@ -133,6 +136,23 @@ func (m *outsMergerT) Merge(key uint32, _ [][]byte) error {
 		return errors.New("injected merge failure")
 	case 'b':
 		return m.f.Add(key, make([]byte, outsBig))
+	case 'e': // asks for the stream writer and writes nothing
+		_, err := m.f.StreamWriter()
+		return err
+	case 'w', 'W': // the streaming path: Prepare (beforeAdd) / Write / Commit (afterAdd)
+		sw, err := m.f.StreamWriter()
+		if err != nil {
+			return err
+		}
+		n := outsSmall
+		if kind == 'W' {
+			n = outsBig
+		}
+		sw.Prepare(key)
+		if _, err := sw.Write(make([]byte, n)); err != nil {
+			return err
+		}
+		return sw.Commit()
 	}
 	return m.f.Add(key, make([]byte, outsSmall))
 }
@@ -145,21 +165,26 @@ func outsInstall() {
 	}
 	outsInstalled = true
 	kv.RegisterMerger(outsMerger, func(f kv.Flusher) (kv.Merger, error) { return &outsMergerT{f: f}, nil })
-	isCleaner := func() *oCase {
-		if k := oCur; k != nil && k.cl != nil && goid() == k.cl.g {
-			return k
+	isCleaner := func() (*oCase, int) {
+		if k := oCur; k != nil {
+			g := goid()
+			for j, t := range k.cl {
+				if t != nil && t.g == g {
+					return k, j
+				}
+			}
 		}
-		return nil
+		return nil, -1
 	}
 	verifhook.Set(func(id string) {
-		if k := isCleaner(); k != nil && id == "family.deleteObsoleteFiles.afterPending" {
-			k.cl.park("pended")
+		if k, j := isCleaner(); k != nil && id == "family.deleteObsoleteFiles.afterPending" {
+			k.cl[j].park("pended")
 		}
 	})
 	kv.VerifC02SetSeams(
 		func(string) {
-			if k := isCleaner(); k != nil {
-				k.cl.park("listed")
+			if k, j := isCleaner(); k != nil {
+				k.cl[j].park("listed")
 			}
 		},
 		func(path string) {
@@ -172,9 +197,9 @@ func outsInstall() {
 				return
 			}
 			k.checkDelete(n)
-			if isCleaner() != nil {
-				k.clDel = n
-				k.cl.park("del")
+			if _, j := isCleaner(); j >= 0 {
+				k.clDel[j] = n
+				k.cl[j].park("del")
 			}
 		},
 		func(string) {})
@@ -234,9 +259,12 @@ func (k *oCase) state() string {
 	if k.comp != nil {
 		w = "merging"
 	}
-	c0 := k.clAt
-	if c0 == "del" {
-		c0 = fmt.Sprintf("del:%d", k.clDel)
+	var cs [2]string
+	for j := range cs {
+		cs[j] = k.clAt[j]
+		if cs[j] == "del" {
+			cs[j] = fmt.Sprintf("del:%d", k.clDel[j])
+		}
 	}
 	pend := kv.VerifC02Pending(k.fam)
 	if k.comp != nil {
@@ -269,8 +297,8 @@ func (k *oCase) state() string {
 			k.c.Fail("held-version-table-missing", fmt.Sprintf("table %d of the version a reader holds is gone from the directory", f))
 		}
 	}
-	return fmt.Sprintf("nf=%d disk=%s pend=%s cur=%s act=%s w=%s c0=%s c1=idle",
-		kv.VerifC02NextFileNumber(k.store), joinI64(disk), joinI64(pend), joinI64(cur), joinI64(k.activeFiles()), w, c0)
+	return fmt.Sprintf("nf=%d disk=%s pend=%s cur=%s act=%s w=%s c0=%s c1=%s",
+		kv.VerifC02NextFileNumber(k.store), joinI64(disk), joinI64(pend), joinI64(cur), joinI64(k.activeFiles()), w, cs[0], cs[1])
 }
 
 func (k *oCase) emit(op string) { k.c.Op(op, k.state()) }
@@ -294,7 +322,7 @@ func (k *oCase) open() error {
 	k.fam = fam
 	k.fv = kv.VerifC02FamilyVersion(fam)
 	k.owned = map[int64]bool{}
-	k.clAt = "idle"
+	k.clAt = [2]string{"idle", "idle"}
 	return nil
 }
 
@@ -326,7 +354,7 @@ func (k *oCase) flush() {
 }
 
 func (k *oCase) startCompaction(plan []byte) {
-	k.plan, k.keyIdx, k.builder, k.finished = plan, 0, false, 0
+	k.plan, k.keyIdx, k.builder, k.finished, k.swCalled, k.count = plan, 0, false, 0, false, 0
 	k.owned = map[int64]bool{}
 	k.inputs = k.curFiles()
 	spawnO(func(t *oThr) { k.comp = t }, func() error { return kv.VerifC02CompactSync(k.fam) })
@@ -355,12 +383,26 @@ func (k *oCase) key() {
 		k.owned = map[int64]bool{}
 	}
 	at := k.comp.step()
-	if kind != 'f' {
+	switch kind {
+	case 'f':
+	case 'e':
+		k.lossy = true
+		// only the job's FIRST StreamWriter() call runs beforeAdd; later calls return the cached writer
+		if !k.swCalled && !k.builder {
+			acts = append(acts, "open")
+			k.builder, k.count = true, 0
+		}
+		k.swCalled = true
+	default:
+		if kind == 'w' || kind == 'W' {
+			k.swCalled = true
+		}
 		if !k.builder {
 			acts = append(acts, "open")
-			k.builder = true
+			k.builder, k.count = true, 0
 		}
-		if kind == 'b' {
+		k.count++
+		if kind == 'b' || kind == 'W' {
 			acts = append(acts, "finish")
 			k.builder = false
 			k.finished++
@@ -392,15 +434,21 @@ func (k *oCase) key() {
 		if t.err == nil {
 			k.c.Fail("failed-merge-reported-ok", "the merger failed but the compaction returned nil")
 		}
-		acts = append(acts, "fail", "cleanup", "cfull 1")
+		acts = append(acts, "fail", "cleanup", "cfull 2")
 		k.c.Branch("op:key-fail")
 	} else {
 		if t.err != nil {
 			k.c.Fail("job-error", "compaction: "+t.err.Error())
 		}
 		if k.builder {
-			acts = append(acts, "finish")
-			k.finished++
+			if k.count > 0 {
+				acts = append(acts, "finish")
+				k.finished++
+			} else {
+				// Count() == 0: the builder is dropped, its table and its pending mark stay (HEAD behaviour)
+				acts = append(acts, "finishempty")
+				k.c.Branch("empty-output-left-pending")
+			}
 		}
 		acts = append(acts, "install", "cleanup")
 		for _, f := range k.inputs {
@@ -408,7 +456,7 @@ func (k *oCase) key() {
 				acts = append(acts, fmt.Sprintf("drop %d", f))
 			}
 		}
-		acts = append(acts, "cfull 1")
+		acts = append(acts, "cfull 2")
 		k.c.Branch(fmt.Sprintf("outputs:%d", k.finished))
 	}
 	k.builder = false
@@ -416,45 +464,61 @@ func (k *oCase) key() {
 	k.emit(strings.Join(acts, " ; "))
 }
 
-func (k *oCase) cleaner() {
+func (k *oCase) cleaner(j int) {
 	var at string
 	var op string
-	switch k.clAt {
+	switch k.clAt[j] {
 	case "idle":
-		spawnO(func(t *oThr) { k.cl = t }, func() error { kv.VerifC02DeleteObsoleteFiles(k.fam); return nil })
-		at = k.cl.wait()
-		op = "clist 0"
+		spawnO(func(t *oThr) { k.cl[j] = t }, func() error { kv.VerifC02DeleteObsoleteFiles(k.fam); return nil })
+		at = k.cl[j].wait()
+		op = "clist"
 	case "listed":
-		at = k.cl.step()
-		op = "cpend 0"
+		at = k.cl[j].step()
+		op = "cpend"
 	case "pended":
-		at = k.cl.step()
-		op = "cactive 0"
+		at = k.cl[j].step()
+		op = "cactive"
 	case "del":
-		at = k.cl.step()
-		op = "cdel 0"
+		at = k.cl[j].step()
+		op = "cdel"
 	}
 	if k.comp != nil && k.finished > 0 {
 		k.c.Branch("cleaner-step-inside-window")
 		k.c.NonTrivial()
 	}
+	if k.clAt[1-j] != "idle" {
+		k.c.Branch("two-cleaners-parked")
+	}
 	switch at {
 	case "":
-		if k.cl.panicV != nil {
-			k.c.Fail("panic", fmt.Sprintf("deleteObsoleteFiles panicked: %v", k.cl.panicV))
+		if k.cl[j].panicV != nil {
+			k.c.Fail("panic", fmt.Sprintf("deleteObsoleteFiles panicked: %v", k.cl[j].panicV))
 		}
-		k.cl = nil
-		k.clAt = "idle"
+		k.cl[j] = nil
+		k.clAt[j] = "idle"
 	case "stuck":
 		k.c.Fail("blocked-thread", "deleteObsoleteFiles neither parked nor returned")
 		k.broken = true
-		k.cl = nil
-		k.clAt = "idle"
+		k.cl[j] = nil
+		k.clAt[j] = "idle"
 	default:
-		k.clAt = at
+		k.clAt[j] = at
 	}
-	k.c.Branch("op:" + strings.Fields(op)[0])
-	k.emit(op)
+	k.c.Branch("op:" + op)
+	k.emit(fmt.Sprintf("%s %d", op, j))
+}
+
+func (k *oCase) cleanersIdle() bool { return k.clAt[0] == "idle" && k.clAt[1] == "idle" }
+
+// drainCleaners lets every parked cleaner run to its end, one phase at a time.
+func (k *oCase) drainCleaners() {
+	for !k.cleanersIdle() && !k.broken {
+		for j := range k.clAt {
+			if k.clAt[j] != "idle" {
+				k.cleaner(j)
+			}
+		}
+	}
 }
 
 func (k *oCase) hold() {
@@ -490,7 +554,7 @@ func (k *oCase) readAll() {
 				found = true
 			}
 		}
-		if !found && len(k.curFiles()) > 0 {
+		if !found && !k.lossy && len(k.curFiles()) > 0 {
 			k.c.Fail("later-reader-missed-key", fmt.Sprintf("key %d is in no table of the current version", key))
 			return
 		}
@@ -500,10 +564,18 @@ func (k *oCase) readAll() {
 func (k *oCase) randomPlan(rng *rand.Rand) []byte {
 	plan := make([]byte, k.keys)
 	for i := range plan {
-		if rng.Intn(2) == 0 {
-			plan[i] = 'b'
-		} else {
-			plan[i] = 's'
+		plan[i] = "bbbsssWw"[rng.Intn(8)]
+	}
+	if rng.Intn(5) == 0 {
+		plan[rng.Intn(k.keys)] = 'e'
+	}
+	if rng.Intn(8) == 0 { // an empty last output: the stream writer is asked for after the last roll-over
+		plan[k.keys-1] = 'e'
+		plan[k.keys-2] = 'b'
+		for i := 0; i < k.keys-2; i++ {
+			if plan[i] == 'w' || plan[i] == 'W' || plan[i] == 'e' {
+				plan[i] = 's'
+			}
 		}
 	}
 	if rng.Intn(6) == 0 {
@@ -549,13 +621,11 @@ func (k *oCase) run(i int, rng *rand.Rand) {
 			// (it has the first round's inputs to unlink), then one cleaner phase between every two keys
 			k.key()
 			if k.comp != nil && !k.broken {
-				k.cleaner()
-				for k.clAt != "idle" && !k.broken {
-					k.cleaner()
-				}
+				k.cleaner(0)
+				k.drainCleaners()
 			}
 			for k.comp != nil && !k.broken {
-				k.cleaner()
+				k.cleaner(i) // case 1 uses the second cleaner slot
 				k.key()
 			}
 			k.c.NonTrivial()
@@ -564,7 +634,7 @@ func (k *oCase) run(i int, rng *rand.Rand) {
 		k.startCompaction(k.randomPlan(rng))
 		for k.comp != nil && !k.broken {
 			if rng.Intn(2) == 0 {
-				k.cleaner()
+				k.cleaner(rng.Intn(4) / 3) // mostly cleaner 0, now and then a second one beside it
 			} else {
 				k.key()
 			}
@@ -574,22 +644,18 @@ func (k *oCase) run(i int, rng *rand.Rand) {
 		}
 		if rng.Intn(2) == 0 {
 			for n := rng.Intn(4); n > 0 && !k.broken; n-- {
-				k.cleaner()
+				k.cleaner(rng.Intn(2))
 			}
 		}
 	}
 	// drain
-	for k.clAt != "idle" && !k.broken {
-		k.cleaner()
-	}
+	k.drainCleaners()
 	if k.held != nil {
 		k.unhold()
 	}
 	if !k.broken {
-		k.cleaner()
-		for k.clAt != "idle" && !k.broken {
-			k.cleaner()
-		}
+		k.cleaner(0)
+		k.drainCleaners()
 		k.readAll()
 	}
 }
@@ -612,7 +678,7 @@ func (outsArea) Run(c *core.Ctx) error {
 			k.run(i, rng)
 		}()
 		// never leave a goroutine parked
-		for _, t := range []*oThr{k.comp, k.cl} {
+		for _, t := range []*oThr{k.comp, k.cl[0], k.cl[1]} {
 			for t != nil {
 				if at := t.step(); at == "" || at == "stuck" {
 					break
